@@ -190,8 +190,14 @@ def run(ctx):
     cases = []          # (line, tree_tt, flags, small)
     seen = set()
     budget_model = ctx.scale(7000, 120000)   # SHA-256 blocks the extracted model may hash (about 4 ms per block)
-    for i in range(n):
-        t, shape = gen_case(r, ctx.thorough)
+    # directed: very large atoms (a per-byte rate that is off by a fraction only shows beyond tens of kilobytes,
+    # where it outweighs the constant per-atom lead of the ChiaLisp program), alone and in short lists
+    directed = []
+    for nbig in (20000, 30000, 40000, 70000, 200000, 1000000):
+        a = gen.Rep(r.choice([0, 0xff, 0x5a]), nbig + r.choice([0, 1, 63, 64]))
+        directed += [(a, "big-atom"), ((a, (a, b"")), "big-list"), (((a, gen.int_to_bytes(1)), a), "big-tree")]
+    for i in range(n + len(directed)):
+        t, shape = gen_case(r, ctx.thorough) if i < n else directed[i - n]
         nodes, nbytes, blocks = size_of(t)
         if nbytes * 1 > 40000000 or nodes > 20000:
             continue
